@@ -12,7 +12,7 @@ func init() {
 		technique: "per-message-case CFG rules (every path through an element-handling case forwards or buffers the element; forwarding sites carry the received value to the intended branch), guard dominance with edge facts, FIFO-shape rule on the junction queue",
 		explanation: "Decides element conservation and routing shape of the junction actors: for the hubs of Broadcast, Balance and Partition and the fan-in actors of Merge, weighted Merge, Concat and ZipN: (1) in the case that handles an incoming element every path either forwards the received value (streamElement with value = the received value) or buffers it; Partition may drop only on its documented out-of-range / cancelled-branch edge; (2) Broadcast forwards inside a loop over all slots in which only cancelled (nil) slots are skipped; Balance forwards at most once per element, to a slot chosen under demand > 0 and not cancelled; Partition forwards to the slot its function returned for that value, with that slot's subscription id; (3) fan-in actors emit only values popped from their buffers, under demand > 0, decrementing demand; they complete only on the edge 'all inputs done and buffers empty'; Concat starts the next input only from the done notification of the current one, in index order; ZipN pops exactly one value per slot in slot order into the same tuple position and emits only when every slot has a value; (4) hubs pull from upstream only when nothing is in flight and never more than the demand they can serve (total demand for Balance, minimum demand for Broadcast/Partition); (5) the junction queue is FIFO (push appends at the tail, pop takes from the head). Ordering across actors relies on per-sender FIFO mailboxes (C04) and is not re-derived; fairness of Balance is not decided.",
 		assumptions: []string{"per-sender FIFO delivery between stage actors (C04)", "actor turn atomicity"},
-		minObl:     40,
+		minObl:     52,
 		run:        runC46,
 	})
 }
